@@ -16,12 +16,19 @@ HasHints(v) ==
     [] v.t = "obj"   -> \E i \in 1..Len(v.es) : HasHints(v.es[i][2])
     [] OTHER -> FALSE
 
+(* a `_` entry the user wrote in an object-literal child is the user's, not a hint of the transform *)
+UserWritesFlag(m) ==
+  "items" \in DOMAIN m.abs /\ \E i \in 1..Len(m.abs.items) :
+     "elem" \in DOMAIN m.abs.items[i] /\ \E j \in 1..Len(m.abs.items[i].elem.children) :
+        LET ch == m.abs.items[i].elem.children[j] IN
+        ch.k = "expr" /\ Peel(ch.e).k = "objlit" /\ \E n \in 1..Len(Peel(ch.e).es) : Peel(ch.e).es[n][1] = "_"
+
 RECURSIVE WhyExports(_, _, _)
 WhyExports(a, b, i) ==
   IF i > Len(a.rt.exports) THEN ""
   ELSE LET n == a.rt.exports[i][1]  va == a.rt.exports[i][2]  vb == FindExport(b.rt.exports, n, 1) IN
        IF EraseHints(va) # EraseHints(vb) THEN "differs-beyond-hints:" \o n
-       ELSE IF HasHints(vb) THEN "hints-without-optimize:" \o n
+       ELSE IF HasHints(vb) /\ ~UserWritesFlag(b) THEN "hints-without-optimize:" \o n
        ELSE WhyExports(a, b, i + 1)
 
 (* StackBalanced: the slot-flag stack is empty again when the module has been traversed (hook `drain_module.stack`) *)
